@@ -30,6 +30,12 @@ std::vector<VT> vts;
 std::vector<std::unique_ptr<std::condition_variable>> tcv;
 thread_local int my_tid = -1;
 std::map<const void *, std::string> names;
+struct NamedRange {
+  const char *lo;
+  const char *hi;
+  std::string name;
+};
+std::vector<NamedRange> ranges;  // objects named as a whole: an atomic member inside takes the name (no private member name needed)
 std::map<const void *, int> ordinals;
 int next_ord = 0;
 int step_count = 0;
@@ -93,6 +99,9 @@ loc_name(const void *addr)
   if (addr == nullptr) return "-";
   auto it = names.find(addr);
   if (it != names.end()) return it->second;
+  for (const auto &r : ranges) {
+    if (static_cast<const char *>(addr) >= r.lo && static_cast<const char *>(addr) < r.hi) return r.name;
+  }
   auto jt = ordinals.find(addr);
   if (jt != ordinals.end()) return "N" + std::to_string(jt->second - node_base + 1);
   return "?";
@@ -328,10 +337,18 @@ name_object(const void *addr, const std::string &name)
 }
 
 void
+name_range(const void *addr, size_t len, const std::string &name)
+{
+  std::unique_lock<std::mutex> lk(mu);
+  ranges.push_back({static_cast<const char *>(addr), static_cast<const char *>(addr) + len, name});
+}
+
+void
 reset_names()
 {
   std::unique_lock<std::mutex> lk(mu);
   names.clear();
+  ranges.clear();
   ordinals.clear();
   next_ord = 0;
   trace_on = true;
